@@ -104,12 +104,15 @@ def fam_dir(ctx, ka, kb, fr_name, perm, template, form):
             ctx.require(st == 'ok' and st2 == 'ok' and bool(g1) == bool(g2), sig % name + ' not symmetric')
 
 
+FP_RANGE = 8      # lattice coordinates k/4 with |k| <= 8; measured: unsat proofs over bit-blasted sqrt/div take 35 s (|k|<=4) to 224 s (|k|<=32) each
+
+
 def fam_fp_acos(ctx, m, kind):
     """bit-precise: can the float argument of acos leave [-1, 1] for exactly parallel lattice directions u and m*u ?"""
     import z3
     us, ks = [], []
     for i in range(3):
-        v, k = ctx.fp_lattice('k%d' % i, -32, 32)
+        v, k = ctx.fp_lattice('k%d' % i, -FP_RANGE, FP_RANGE)
         us.append(v)
         ks.append(k)
     if ctx.mode == 'sym':
@@ -152,7 +155,7 @@ def families(tier, seed):
     # in the quick tier float noise is only seen through the float replay of the path witnesses
     if tier == 'thorough':
         for m in (1, -1, 2, -2, 3, -3):
-            fams.append(Family('fp64-acos-domain/Vector/m=%d' % m, fam_fp_acos, (m, 'Vector'), timeout_ms=400000, budget_s=1500))
+            fams.append(Family('fp64-acos-domain/Vector/m=%d' % m, fam_fp_acos, (m, 'Vector'), timeout_ms=600000, budget_s=2400))
     return fams
 
 
@@ -174,7 +177,7 @@ META = dict(
                 'A bit-precise IEEE-754 (QF_FP) run of the same Vector.angle code decides whether the float argument of acos can leave [-1,1] for parallel lattice vectors.'),
     level_note='exact-real semantics for the main part; binary64 semantics (round-to-nearest-even, fp.sqrt for **0.5) for the acos-domain obligation',
     technique='symbolic execution of real code over exact reals (z3 QF_NRA) + bit-precise QF_FP execution of Vector.angle',
-    bounds=dict(parameters='2-3 reals in [-3,3]', frames='3 (quick) / 6 (thorough)', fp64='lattice vectors with |coordinate| <= 8 in units of 1/4, v = m*u, m in {+-1,+-2,+-3}'),
+    bounds=dict(parameters='2-3 reals in [-3,3]', frames='3 (quick) / 6 (thorough)', fp64='thorough tier only: lattice vectors with |coordinate| <= 2 (k/4, |k| <= 8), v = m*u, m in {+-1,+-2,+-3}'),
     outside_claim=['float rounding of the returned angle itself', 'poses outside the catalogue'],
     assumptions=['cross/dot of the two directions are 0 or >= 1e-3 relative', 'acos/asin modelled by monotonicity (SymAcos)'],
 )
